@@ -45,8 +45,35 @@ def check(run, prog, tier):
     ok_open = all(show(strip(n["args"][0])) == tmpvar for b, i, n in opens) and tmpvar != final
     run.ob("C16-a", "open-temp", ok_open, "stream opened on %s (final name is %s)" % (tmpvar, final), so.file, opens[0][2].get("l"), "save_object", what="save_object opens the final save file for writing (a crash mid-save destroys the previous save)")
     # temp name derived from final name
-    derived = any(n.get("fn") in ("snprintf", "sprintf") and show(strip(n["args"][0])) == tmpvar and any(show(strip(a)) == final for a in n["args"][2:]) for b, i, n in so.calls())
-    run.ob("C16-a", "temp-derived", derived, "%s is formatted from %s" % (tmpvar, final), so.file, so.line, "save_object", what="the temporary name is not derived from the approved path")
+    import re as _re0
+    derived, whole, how = False, False, "no copy of %s into %s" % (final, tmpvar)
+    for b, i, n in so.calls():
+        fn = n.get("fn")
+        if fn in ("snprintf", "sprintf") and show(strip(n["args"][0])) == tmpvar and any(show(strip(a)) == final for a in n["args"][2:]):
+            derived = True
+            fmt = next((strip(a).get("s") for a in n["args"][1:3] if strip(a).get("k") == "Str"), None)
+            # a precision on the %s ("%.250s") cuts the approved name: what is opened then is another file
+            whole = fmt is not None and not _re0.search(r"%[-0-9]*\.[0-9*]+s", fmt) and fn == "sprintf"
+            how = "%s(\"%s\")" % (fn, fmt)
+        elif fn in ("memcpy", "memmove", "strcpy", "stpcpy") and show(strip(n["args"][0])) == tmpvar and show(strip(n["args"][1])) == final:
+            derived = True
+            if fn in ("strcpy", "stpcpy"):
+                whole = True
+            else:
+                ln = strip(n["args"][2])
+                # the length is strlen(final), directly or through a local assigned from it
+                def is_len(e):
+                    e = strip(e)
+                    if e.get("k") == "Call" and e.get("fn") == "strlen" and show(strip(e["args"][0])) == final:
+                        return True
+                    if e.get("k") == "Ref" and e.get("d") == "local":
+                        return any(n2.get("k") == "Asg" and n2.get("op") == "=" and strip(n2["L"]).get("id") == e.get("id") and is_len(n2["R"]) and so.point_dominates((b2.id, i2), (b.id, i)) for b2, i2, n2 in so.nodes())
+                    return False
+                whole = is_len(ln)
+            how = "%s(%s, %s, ..)" % (fn, tmpvar, final)
+    run.ob("C16-a", "temp-derived", derived and whole, "%s is the whole approved name %s plus a suffix (%s)" % (tmpvar, final, how) if derived and whole else
+           ("%s is built from a part of %s only (%s): for a long name the temporary is a different file, one nobody approved" % (tmpvar, final, how) if derived else how),
+           so.file, so.line, "save_object", what="the temporary name is not the approved path plus a suffix")
     # every use of the final name in a file-system call is rename's second argument
     uses = []
     for b, i, n in fops:
